@@ -53,6 +53,16 @@ SUM = {
  "C09-3": ("C09", "identifier-hygiene helper called from the PUBCOMP arm too: the client's outbound PUBCOMP(N) erases inbound identifier N from the unreleased set", "inbound QoS 2 N delivered and unreleased, the client's own QoS 2 publish uses the same number N and completes, then the broker re-sends PUBLISH(N) before PUBREL: delivered twice"),
  "C11-3": ("C11", "a publish refused locally (quota / size) hands its identifier back with fetch_sub when the future sees the refusal", "another clone allocates between the refused publish's first poll and the poll that sees the refusal, and its operation is still outstanding at the next allocation: same identifier twice"),
  "C12-3": ("C12", "handle_connack takes the Maximum Packet Size only when Session Present is 0", "CONNACK with Session Present = 1 carrying Maximum Packet Size M, any request longer than M: written in full"),
+ "C03-4": ("C03", "Idle arm keeps reading while the transport fills the offered chunk completely, and returns Pending from the follow-up read although complete packets are buffered", "bytes available at once are an exact multiple of the offered read sizes (512, 1024, 1536) and nothing follows: the buffered packets are released only by a later arrival"),
+ "C05-4": ("C05", "the context writes the PUBREL itself on every PUBREC and the caller's PUBREL request only registers for the PUBCOMP (two sites)", "QoS 2 publish whose PUBCOMP is processed before its future is polled again after the PUBREC: the PUBCOMP is discarded, the PUBREL written a second time"),
+ "C06-4": ("C06", "PUBLISH/PUBREL/other branches of the AwaitAck arm merged; the quota refusal now also applies to the PUBREL step", "send quota 0 when the PUBREL request is handled (Receive Maximum 1 with any QoS 2 publish; or the window filled by another publish meanwhile): no PUBREL, publish() fails with QuotaExceeded after its PUBLISH was written"),
+ "C07-4": ("C07", "a SUBSCRIBE refused for size gives its subscription identifier back with fetch_sub when the future observes the refusal", "another clone subscribed between the refused subscribe's first poll and the poll that sees the refusal: the next subscribe reuses a live subscription's identifier, its stream never gets a message"),
+ "C10-4": ("C10", "quota check and decrement moved above validate_packet_size", "CONNACK with Maximum Packet Size, an oversized QoS>0 publish while a slot is free, then enough publishes to need the lost slot (small Receive Maximum)"),
+ "C13-4": ("C13", "set_up keeps the previous RxPacketStream and only swaps the stream (reattach does not reset the count of buffered bytes) - two sites", "the same Context set up again after a connection that ended inside a packet: connect() fails with a codec error or stays pending although the CONNACK arrived"),
+ "C14-4": ("C14", "ping(): poll_fn fast path that registers the waker on the first poll only and later only try_recv()s", "a ping future polled at least twice with different wakers (moved between tasks / per-poll wakers), then the context dropped: the wake-up goes to the stale waker"),
+ "C15-4": ("C15", "dead streams collected as deque positions during dispatch and removed afterwards with stale indices", "two dropped streams named (older first) in one PUBLISH and a live subscription registered right behind the later one: the live stream is unregistered"),
+ "C16-4": ("C16", "poll_read returning Ready(Err(Interrupted | WouldBlock)) is answered with Poll::Pending although the reader stored no waker", "a transient read error of those kinds: under a wake-only executor nothing is read any more, any extra poll repairs it"),
+ "C17-4": ("C17", "retransmit() takes the queue out of the session with mem::take and puts it back only on the normal exit", "the resumed connection breaks (write error) while the retransmission is being written; on the next resumption nothing is re-sent and the original futures hang"),
 }
 for d in sorted(glob.glob('/verif/seeded/*/')):
     name = os.path.basename(d.rstrip('/'))
